@@ -568,4 +568,121 @@ example : ∀ w ∈ (logw h1 0 true).1, w = -Real.log 3 := by
   have : (nTotal h1 : ℝ) = 3 := by simp [h1, nTotal]
   rw [this] at h; exact h
 
+/-! ### second round: further clause-level corollaries -/
+
+/-- one log-weight per stored sample (either `normalize` flag) -/
+theorem C04_length (h : List (Batch ℝ)) (hwf : WF h) (β : ℝ) (nrm : Bool) :
+    ((logw h β nrm).1).length = nTotal h := by
+  cases nrm with
+  | false => rw [C04_formula h hwf, List.length_map, length_flatLogl]
+  | true => rw [C04_normalised h hwf, List.length_map, length_flatLogl]
+
+/-- the weights of iteration `t` sit, in particle order, behind those of the iterations before it:
+    the output for `pre ++ b :: post` is (weights of `pre`) ++ (weights of `b`) ++ (weights of `post`),
+    each computed by the same weight function of the whole history -/
+theorem C04_batch_slices (pre post : List (Batch ℝ)) (b : Batch ℝ) (hwf : WF (pre ++ b :: post)) (β : ℝ) :
+    (logw (pre ++ b :: post) β false).1
+      = (flatLogl pre).map (specRaw (pre ++ b :: post) β)
+        ++ b.logl.map (specRaw (pre ++ b :: post) β)
+        ++ (flatLogl post).map (specRaw (pre ++ b :: post) β) := by
+  rw [C04_formula _ hwf]
+  simp [flatLogl, List.flatMap_append, List.flatMap_cons]
+
+/-- normalised weight = unnormalised weight / (N · Ẑ): `logw_norm = logw − logz − log N` -/
+theorem C04_norm_raw_logz (h : List (Batch ℝ)) (hwf : WF h) (β l : ℝ) :
+    specNorm h β l = specRaw h β l - specLogz h β - Real.log (nTotal h : ℝ) := by
+  have hN : (0 : ℝ) < (nTotal h : ℝ) := by exact_mod_cast nTotal_pos _ hwf
+  have hS := sumW_pos h hwf β
+  unfold specNorm specLogz
+  rw [Real.log_mul (by positivity) hS.ne', one_div, Real.log_inv]
+  ring
+
+/-- a single stored iteration re-targeted at its own temperature: every unnormalised log-weight and the
+    evidence estimate reproduce the stored evidence value `z_1` -/
+theorem C04_single_batch_fixed_point (b : Batch ℝ) (hb : 1 ≤ b.logl.length) :
+    (∀ w ∈ (logw [b] b.beta false).1, w = b.logz) ∧ (logw [b] b.beta false).2 = some b.logz := by
+  have hwf : WF [b] := ⟨by simp, by intro b' hb'; simp at hb'; subst hb'; exact hb⟩
+  have hn : (0 : ℝ) < (b.logl.length : ℝ) := by exact_mod_cast hb
+  have hmix : ∀ l, mix [b] l = Real.exp (b.beta * l - b.logz) := by
+    intro l
+    simp only [mix, nTotal, List.map_cons, List.map_nil, List.sum_cons, List.sum_nil, add_zero]
+    rw [div_self hn.ne', one_mul]
+  have hraw : ∀ l, specRaw [b] b.beta l = b.logz := by
+    intro l; unfold specRaw; rw [hmix, Real.log_exp]; ring
+  have hflat : flatLogl [b] = b.logl := by simp [flatLogl]
+  constructor
+  · intro w hw
+    rw [C04_formula _ hwf, List.mem_map] at hw
+    obtain ⟨l, _, rfl⟩ := hw
+    exact hraw l
+  · rw [C04_logz _ hwf]
+    congr 1
+    unfold specLogz sumW
+    rw [hflat]
+    have : (b.logl.map fun l => Real.exp (specRaw [b] b.beta l))
+        = List.replicate b.logl.length (Real.exp b.logz) := by
+      rw [List.eq_replicate_iff]
+      refine ⟨by simp, ?_⟩
+      intro x hx
+      rw [List.mem_map] at hx
+      obtain ⟨l, _, rfl⟩ := hx
+      rw [hraw]
+    rw [this, List.sum_replicate, nsmul_eq_mul]
+    have hN : (nTotal [b] : ℝ) = (b.logl.length : ℝ) := by simp [nTotal]
+    rw [hN, one_div, ← mul_assoc, inv_mul_cancel₀ hn.ne', one_mul, Real.log_exp]
+
+/-! #### stability: the max-shifted reduction does not amplify input errors (1-Lipschitz in the sup norm) -/
+
+theorem sum_exp_le_of_pointwise (xs ys : List ℝ) (δ : ℝ) (hxy : List.Forall₂ (fun x y => y ≤ x + δ) xs ys) :
+    (ys.map Real.exp).sum ≤ Real.exp δ * (xs.map Real.exp).sum := by
+  induction hxy with
+  | nil => simp
+  | cons hab _ ih =>
+    simp only [List.map_cons, List.sum_cons, mul_add]
+    have := Real.exp_le_exp.mpr hab
+    rw [Real.exp_add, mul_comm] at this
+    linarith
+
+/-- perturbing every term of a log-sum-exp upwards by at most `δ` raises the result by at most `δ` -/
+theorem logaddexpReduce1_mono_add (x y : ℝ) (xs ys : List ℝ) (δ : ℝ) (h0 : y ≤ x + δ)
+    (hxy : List.Forall₂ (fun x y => y ≤ x + δ) xs ys) :
+    logaddexpReduce1 y ys ≤ logaddexpReduce1 x xs + δ := by
+  rw [logaddexpReduce1_eq, logaddexpReduce1_eq]
+  have h1 := sum_exp_le_of_pointwise (x :: xs) (y :: ys) δ (List.Forall₂.cons h0 hxy)
+  simp only [List.map_cons, List.sum_cons] at h1
+  have hposx : 0 < Real.exp x + (xs.map Real.exp).sum := by
+    have := exp_le_sum_exp (x :: xs) x (by simp)
+    simp only [List.map_cons, List.sum_cons] at this
+    linarith [Real.exp_pos x]
+  have hposy : 0 < Real.exp y + (ys.map Real.exp).sum := by
+    have := exp_le_sum_exp (y :: ys) y (by simp)
+    simp only [List.map_cons, List.sum_cons] at this
+    linarith [Real.exp_pos y]
+  calc Real.log (Real.exp y + (ys.map Real.exp).sum)
+      ≤ Real.log (Real.exp δ * (Real.exp x + (xs.map Real.exp).sum)) := Real.log_le_log hposy h1
+    _ = Real.log (Real.exp x + (xs.map Real.exp).sum) + δ := by
+      rw [Real.log_mul (Real.exp_pos δ).ne' hposx.ne', Real.log_exp]; ring
+
+/-- … hence input errors of size `δ` (e.g. the rounding of `ℓ·β_t − z_t + log(n_t/N)`) move `B_s`
+    by at most `δ`: the evaluation is stable whatever the magnitudes involved -/
+theorem C04_lse_lipschitz (x y : ℝ) (xs ys : List ℝ) (δ : ℝ) (h0 : |y - x| ≤ δ)
+    (hxy : List.Forall₂ (fun x y => |y - x| ≤ δ) xs ys) :
+    |logaddexpReduce1 y ys - logaddexpReduce1 x xs| ≤ δ := by
+  have hup : List.Forall₂ (fun x y => y ≤ x + δ) xs ys :=
+    hxy.imp (fun {a b} hab => by have := (abs_le.mp hab).2; linarith)
+  have hdn : List.Forall₂ (fun y x => x ≤ y + δ) ys xs :=
+    hxy.flip.imp (fun {a b} hab => by
+      have := (abs_le.mp hab).1; linarith)
+  have h1 := logaddexpReduce1_mono_add x y xs ys δ (by have := (abs_le.mp h0).2; linarith) hup
+  have h2 := logaddexpReduce1_mono_add y x ys xs δ (by have := (abs_le.mp h0).1; linarith) hdn
+  rw [abs_le]; constructor <;> linarith
+
+example : ((logw h0 1 true).1).length = 3 := by rw [C04_length h0 wf_h0]; simp [h0, nTotal]
+example : (logw [(⟨1/2, 7, [3, -4]⟩ : Batch ℝ)] (1/2) false).2 = some 7 :=
+  (C04_single_batch_fixed_point ⟨1/2, 7, [3, -4]⟩ (by simp)).2
+example : |logaddexpReduce1 (1 : ℝ) [2, 1000001] - logaddexpReduce1 (1.5 : ℝ) [2, 1000000.5]| ≤ 1/2 := by
+  apply C04_lse_lipschitz
+  · norm_num [abs_le]
+  · refine List.Forall₂.cons ?_ (List.Forall₂.cons ?_ List.Forall₂.nil) <;> norm_num [abs_le]
+
 end Props.C04
